@@ -77,6 +77,8 @@ func SchemaFiles(schemaName string) []string {
 	switch schemaName {
 	case "vt":
 		return []string{"vt.yang", "vt-aug.yang"}
+	case "vtrev": // the second revision of module vt (package vtrs)
+		return []string{"rev/vt.yang", "rev/vt-aug.yang"}
 	case "voc":
 		return []string{"voc.yang"}
 	}
